@@ -480,6 +480,18 @@ class Scheduler(object):
     def _set_root(me, root):
         me.root_key = root
 
+    def _from_library(self):
+        """Was the current lock operation issued (directly, or through one stdlib call) by library code?"""
+        f = _getframe(2)
+        atomic = (F_ATOMIC, F_STDFUT) if self.gran == 0 else (F_ATOMIC,)
+        while f is not None:
+            c = _file_class(f.f_code.co_filename)
+            if c == F_SHIM or c in atomic:
+                f = f.f_back
+                continue
+            return c == F_LIB
+        return False
+
     @staticmethod
     def _flush(me):
         pass
@@ -654,6 +666,13 @@ class Scheduler(object):
         lock.owner = None
         if self.lock_events is not None:
             self.lock_events.append((me.idx, "rel", id(lock)))
+        if self.post_release:
+            # optional extra scheduling point right AFTER a release: lets threads that were
+            # waiting for this lock run before the releasing thread's next (unlocked) statements
+            if self._from_library():
+                me.pending = ("post",)
+                self._yield(me, explicit=True)
+                me.pending = None
         if me.trash:
             self._flush_if_safe(me)
 
@@ -782,6 +801,7 @@ class Scheduler(object):
     tracefn = None
     profilefn = None
     FAIR = 400
+    post_release = False
     switches = 0
     run_len = 0
     last_run = None
